@@ -140,6 +140,39 @@ func ruleNum(c *Ctx) {
 	} else {
 		key := "lazyNode.RedirectMarshalJSON: an unparsed node is emitted from its raw bytes"
 		ok := false
+		// every successful return of the which == eRaw arm hands the raw message itself to the codec
+		// (whose RawMessage path compacts it with the escape flag): anything else — a wrapper that
+		// writes the text verbatim, a copy as plain bytes — bypasses the escaping pass of R-ESCSET
+		notRaw := ""
+		for _, r := range liveReturns(rm) {
+			if !isNilConst(r.Results[1]) {
+				continue
+			}
+			underRaw := false
+			for _, f := range dominatingFacts(r.Block()) {
+				bo, isBo := f.V.(*ssa.BinOp)
+				if !isBo || bo.Op != token.EQL || !f.True {
+					continue
+				}
+				if _, f1, isW := fieldLoad(bo.X); isW && f1.Field == "which" {
+					if k, isK := intConst(bo.Y); isK && k == b.constInt("eRaw") {
+						underRaw = true
+					}
+				}
+			}
+			if !underRaw {
+				continue
+			}
+			v0 := unwrapMI(r.Results[0])
+			if _, fr, isF := fieldLoad(v0); !isF || fr.Field != "raw" {
+				notRaw = "under which == eRaw the value returned at " + b.posOf(r) + " is " + describeValue(v0) + ", not the node's raw message: the codec no longer compacts and escapes it (with EscapeHTML on, <, >, & and U+2028/9 of untouched values would appear unescaped)"
+			}
+		}
+		if notRaw != "" {
+			l.add("R-NUM", "v5", "lazyNode.RedirectMarshalJSON: an unparsed node hands the codec its raw message itself", b.rel(rm.Pos()), Violated, notRaw, true)
+		} else {
+			l.add("R-NUM", "v5", "lazyNode.RedirectMarshalJSON: an unparsed node hands the codec its raw message itself", b.rel(rm.Pos()), Discharged, "every successful return under which == eRaw is the field raw", true)
+		}
 		for _, r := range returnsOf(rm) {
 			v0 := unwrapMI(r.Results[0])
 			if _, fr, isF := fieldLoad(v0); isF && fr.Field == "raw" && isNilConst(r.Results[1]) {
